@@ -212,7 +212,9 @@ def _mimic_async[**Args, Result](
         except AttributeError:
             pass
     try:
-        within.__dict__.update(function.__dict__)
+        # do not override attributes already defined by the wrapper, wrapper objects keep their own state
+        for key, value in function.__dict__.items():
+            within.__dict__.setdefault(key, value)
 
     except AttributeError:
         pass
